@@ -148,10 +148,10 @@ def extension(ctx) -> None:
         elif isinstance(core, ast.Compare) and len(core.ops) == 1 and isinstance(core.ops[0], ast.In) and p:
             verdict = False
             detail = f"`{show(core)}` only tests that '.gwl' occurs somewhere in the name: 'x.gwl.txt' is accepted"
-    ok_raises = any(fv.cfg.dominates(n.id, op.node) and ".gwl" in show(test) for n, test, pol, r in fv.raising_guards())
+    ok_raises = any(fv.cfg.dominates(n.id, op.node) and ".gwl" in show(fv.res.resolve(test, n.id)) for n, test, pol, r in fv.raising_guards())
     ctx.rep.check(verdict is True and ok_raises, rule, f"{f.qualname}/gwl", "file names whose extension is not .gwl are refused before the file is touched", detail, where=f.where())
     # nothing touches the file system before the guard
-    early = [cs for cs in fv.calls() if call_fname(cs.call) in ("unlink", "remove", "open", "touch") and not any(fv.cfg.dominates(n.id, cs.node) and ".gwl" in show(test) for n, test, pol, r in fv.raising_guards())]
+    early = [cs for cs in fv.calls() if call_fname(cs.call) in ("unlink", "remove", "open", "touch") and not any(fv.cfg.dominates(n.id, cs.node) and ".gwl" in show(fv.res.resolve(test, n.id)) for n, test, pol, r in fv.raising_guards())]
     ctx.rep.check(not early, rule, f"{f.qualname}/guard-first", "the extension guard precedes every file operation", f"`{call_fname(early[0].call) if early else ''}` happens before the extension guard", where=f.where())
 
 
